@@ -118,10 +118,14 @@ func parseAsmOperand(s string, defs map[string]string) (asmOperand, error) {
 }
 
 // parseAsmFile splits an assembly file into routines.
-func parseAsmFile(path string) (map[string]*asmRoutine, error) {
-	b, err := os.ReadFile(path)
-	if err != nil {
-		return nil, err
+func parseAsmFile(path string, overlay map[string][]byte) (map[string]*asmRoutine, error) {
+	b, ok := overlay[path]
+	if !ok {
+		var err error
+		b, err = os.ReadFile(path)
+		if err != nil {
+			return nil, err
+		}
 	}
 	defs := map[string]string{}
 	out := map[string]*asmRoutine{}
@@ -471,6 +475,22 @@ func (ac *asmCtx) step(a *astate) []*astate {
 		a.lt = mkLt(ssum, mkI(0))
 		return next()
 	case "SUBQ", "SBBQ", "CMPQ":
+		if (in.op == "SBBQ" || in.op == "SUBQ") && B(0).kind == "reg" && B(1).kind == "reg" && B(0).reg == B(1).reg {
+			// R - R - CF: the old value of R is irrelevant (carry materialisation idiom)
+			r := mkI(0)
+			if in.op == "SBBQ" {
+				if a.cf == nil {
+					ac.unsupported(in, "carry flag undefined")
+				}
+				r = mkIte(a.cf, mkInt(m64), mkI(0))
+			} else {
+				a.cf = tFalse
+			}
+			ac.store(a, in, B(1), aval{t: r})
+			a.zf = mkEq(r, mkI(0))
+			a.lt = mkNot(mkEq(r, mkI(0)))
+			return next()
+		}
 		var x, y *Term // computes y - x (dst - src); CMPQ a, b computes a - b
 		if in.op == "CMPQ" {
 			va, vb := ac.load(a, in, B(0)), ac.load(a, in, B(1))
@@ -704,6 +724,11 @@ func (ac *asmCtx) asmHint(a *astate, h *Hint, where string) {
 			// contents (the fact re-assumed below says what is known about them); loop
 			// frames are left behind
 			a.s.frames = a.s.frames[:1]
+			for k := range a.s.heap {
+				if _, ok := ac.fc.oldHeap[k]; !ok {
+					delete(a.s.heap, k) // created lazily after entry: back to the entry constant
+				}
+			}
 			for k, v := range ac.fc.oldHeap {
 				a.s.heap[k] = v
 			}
@@ -844,7 +869,7 @@ func (fc *FnCtx) runAsm(repo string) (err error) {
 			panic(r)
 		}
 	}()
-	file, perr := parseAsmFile(filepath.Join(repo, fc.ct.AsmFile))
+	file, perr := parseAsmFile(filepath.Join(repo, fc.ct.AsmFile), fc.eng.overlay)
 	if perr != nil {
 		return perr
 	}
@@ -922,9 +947,13 @@ func (fc *FnCtx) runAsm(repo string) (err error) {
 				return fmt.Errorf("%s: fell off the end of TEXT %s", fc.key, a.inRt.name)
 			}
 			in := a.inRt.instrs[a.pc]
-			if in.label != "" && a.inRt == rt {
-				if ls := fc.ct.Labels[in.label]; ls != nil && len(ls.Invs) > 0 {
-					key := in.label
+			if in.label != "" {
+				lkey := in.label
+				if a.inRt != rt {
+					lkey = a.inRt.name + "." + in.label // label of a tail-called routine
+				}
+				if ls := fc.ct.Labels[lkey]; ls != nil && len(ls.Invs) > 0 {
+					key := lkey
 					env := ac.regEnv(a)
 					if a.seen[key] > 0 {
 						// back edge (or second arrival): the invariant must hold; the path ends here
@@ -945,7 +974,7 @@ func (fc *FnCtx) runAsm(repo string) (err error) {
 					// havoc what the loop writes
 					a = a.clone()
 					a.seen[key]++
-					w := loopWritten(rt, key)
+					w := loopWritten(a.inRt, in.label)
 					var ws []string
 					for r := range w {
 						ws = append(ws, r)
@@ -990,20 +1019,32 @@ func (fc *FnCtx) runAsm(repo string) (err error) {
 					a.headPC = len(a.s.pc)
 					a.cutFacts = nil
 					a.s.trace = append(a.s.trace, "label "+key)
-				} else if a.seen["plain:"+in.label] > 3 {
-					return fmt.Errorf("%s: label %s is reached repeatedly and has no invariant", fc.key, in.label)
+				} else if a.seen["plain:"+lkey] > 3 {
+					return fmt.Errorf("%s: label %s is reached repeatedly and has no invariant", fc.key, lkey)
 				} else {
-					a.seen["plain:"+in.label]++
+					a.seen["plain:"+lkey]++
 				}
 			}
 			// hints attached to `label L+k`: the k-th instruction after label L
-			if a.inRt == rt {
+			{
 				for lk, ls := range fc.ct.Labels {
 					i := strings.Index(lk, "+")
 					if i < 0 {
 						continue
 					}
-					base, ok := rt.labels[lk[:i]]
+					lname := lk[:i]
+					if a.inRt != rt {
+						if !strings.HasPrefix(lname, a.inRt.name+".") {
+							continue
+						}
+						lname = strings.TrimPrefix(lname, a.inRt.name+".")
+					} else if strings.Contains(lname, ".") {
+						continue
+					}
+					base, ok := a.inRt.labels[lname]
+					if lname == "$entry" {
+						base, ok = 0, true // the routine's first instruction
+					}
 					off, err := strconv.Atoi(lk[i+1:])
 					if !ok || err != nil || base+off != a.pc {
 						continue
